@@ -1225,6 +1225,9 @@ impl<'w> FnTr<'w> {
                 return Ok(false);
             }
         }
+        if let Expr::Match(m) = e {
+            if is_result_match(m) { return self.tr_result_match_stmt(e, m, rest, k, out); }
+        }
         let (pre, branches) = self.branches_of(e)?;
         out.extend(pre);
         if contains_return_expr(e) {
@@ -1248,6 +1251,62 @@ impl<'w> FnTr<'w> {
                 if let Some(last) = ls.last_mut() { last.push(')'); }
                 out.extend(ls);
             }
+            Ok(false)
+        }
+    }
+
+    /// `match E { Ok(p) => A, Err(q) => B }` as a statement (`E` may be ONE side-effecting call of a translated `&mut self` method: it
+    /// runs first): a Lean `match` on the `Except` value; a payload that is a packed struct value is bound as a flattened struct local
+    fn tr_result_match_stmt(&mut self, e: &Expr, m: &syn::ExprMatch, rest: &[Stmt], k: &Kont, out: &mut Vec<String>) -> Res<bool> {
+        self.effect_allowed = self.effect_head_w(&m.expr);
+        let sx = self.tr_expr(&m.expr, None);
+        self.effect_allowed = None;
+        let sx = sx?;
+        out.append(&mut self.pending);
+        let (vt, et) = match &sx.ty { RTy::Res(t, er) => ((**t).clone(), (**er).clone()), _ => return Err(self.err(e, "`Ok`/`Err` patterns on a value that is not a `Result`")) };
+        let scr = if sx.pure && sx.atomic { sx.text.clone() } else { let t = self.fresh("scrutinee"); out.push(bind_line(&t, &sx)); t };
+        let has_ret = contains_return_expr(e);
+        let vars = if has_ret { vec![] } else { self.assigned_outer_expr(e)? };
+        let kk = if has_ret { Kont::Seq { rest, k, env_len: self.env.len(), depth: self.depth } } else { Kont::Yield(vars.clone()) };
+        let mut lines = vec![format!("match {} with", scr)];
+        let mut seen = (false, false);
+        for arm in &m.arms {
+            if arm.guard.is_some() { return Err(self.err(&arm.pat, "guard on a `Result` pattern")); }
+            let (is_ok, inner) = match &arm.pat {
+                Pat::TupleStruct(ts) if ts.qself.is_none() && ts.elems.len() == 1 && (ts.path.is_ident("Ok") || ts.path.is_ident("Err")) => (ts.path.is_ident("Ok"), &ts.elems[0]),
+                p => return Err(self.err(p, "unsupported pattern in a `match` on `Result` patterns")),
+            };
+            if (is_ok && seen.0) || (!is_ok && seen.1) { return Err(self.err(&arm.pat, "duplicate `Result` pattern")); }
+            if is_ok { seen.0 = true } else { seen.1 = true }
+            let pty = if is_ok { &vt } else { &et };
+            let mark = self.push_scope();
+            let res = (|| -> Res<Vec<String>> {
+                let ptext = match inner {
+                    Pat::Wild(_) => "_".to_string(),
+                    Pat::Ident(pi) if pi.subpat.is_none() && pi.by_ref.is_none() && pi.mutability.is_none() => match pty {
+                        RTy::Packed(_, _) => self.bind_list_element(&arm.pat, &pi.ident.to_string(), pty)?,
+                        RTy::Unit => "_".to_string(),
+                        _ => self.declare(&arm.pat, &pi.ident.to_string(), pty.clone(), false, None)?,
+                    },
+                    p => return Err(self.err(p, "unsupported pattern inside `Ok(..)` / `Err(..)`")),
+                };
+                let body = match &*arm.body { Expr::Block(b) if b.label.is_none() => self.tr_stmts(&b.block.stmts, &kk)?, x => self.tr_tail(x, &kk)? };
+                let mut ls = vec![format!("| {} {} => do", if is_ok { "Except.ok" } else { "Except.error" }, ptext)];
+                ls.extend(indent(body, 2));
+                Ok(ls)
+            })();
+            self.pop_scope(mark);
+            lines.extend(res?);
+        }
+        if seen != (true, true) { return Err(self.err(e, "a `match` on `Result` patterns needs exactly the arms `Ok(..)` and `Err(..)`")); }
+        if has_ret {
+            out.extend(lines);
+            Ok(true)
+        } else {
+            out.push(format!("let {} ← (", pat_tuple(&vars)));
+            let mut ls = indent(lines, 2);
+            if let Some(last) = ls.last_mut() { last.push(')'); }
+            out.extend(ls);
             Ok(false)
         }
     }
@@ -1539,7 +1598,8 @@ impl<'w> FnTr<'w> {
                 let mut names = vec![];
                 for ((f, _), t) in decl.iter().zip(tys.iter()) {
                     let lean = format!("{}_{}", lean_ident(var), f);
-                    if self.local_names.contains(&lean) || self.lparams.iter().any(|p| p.name == lean) || self.lookup(&lean).is_some() { return Err(self.err(node, &format!("generated variable name `{}` clashes with another name", lean))); }
+                    // (the same element name in a disjoint scope — another `match` arm — is fine: Lean's scoping is lexical too)
+                    if self.env.iter().any(|v| v.lean == lean) || self.lparams.iter().any(|p| p.name == lean) || self.lookup(&lean).is_some() { return Err(self.err(node, &format!("generated variable name `{}` clashes with another name", lean))); }
                     self.local_names.insert(lean.clone());
                     self.env.push(Var { rust: format!("{}.{}", var, f), lean: lean.clone(), ty: t.clone(), depth: self.depth, mutable: false, param: None, declared: true });
                     names.push(lean);
@@ -1613,9 +1673,22 @@ impl<'w> FnTr<'w> {
         self.pop_scope(mark);
         let used = self.used.pop().unwrap();
         self.ret_mode = outer_mode;
+        // (the element type of a `Vec::new()` local becomes known at its first `push`, possibly inside the loop body)
+        let mut outer_env = outer_env;
+        for (i, v) in outer_env.iter_mut().enumerate() {
+            if v.ty == RTy::VecList(Box::new(RTy::Infer)) { if let Some(w) = self.env.get(i) { if w.lean == v.lean && w.ty != v.ty { v.ty = w.ty.clone(); } } }
+        }
         self.env = outer_env;
+        let state_tys: Vec<RTy> = state.iter().map(|s| self.env.iter().rev().find(|v| v.lean == *s).map(|v| v.ty.clone()).unwrap()).collect();
         let (pat_text, body_lines) = body_res?;
-        let captured = self.captured_of(&used, &state);
+        let mut captured = self.captured_of(&used, &state);
+        // a call in the body that needs loop fuel (a translated function with `while` loops): the fuel of the enclosing function is read
+        if used.contains(&self.fuel_var) && !captured.iter().any(|c| c.0 == self.fuel_var) {
+            captured.push((self.fuel_var.clone(), RTy::Opaque("Nat".to_string())));
+            self.needs_fuel = true;
+            let f = self.fuel_var.clone();
+            self.note_use(&f);
+        }
         let cap_names: Vec<String> = captured.iter().map(|c| c.0.clone()).collect();
         let call_prefix = if cap_names.is_empty() { lname.clone() } else { format!("{} {}", lname, cap_names.join(" ")) };
         let ret_ty_lean = self.full_ret_lean();
@@ -1893,6 +1966,17 @@ impl<'w> FnTr<'w> {
                     match &x.m { _ if x.pure => out.push(format!("let {} : List Char := {}", xv.lean, rhs)), _ => { let t = self.fresh("pushed"); out.push(bind_line(&t, &x)); out.push(format!("let {} : List Char := {} ++ {}", xv.lean, xv.lean, if method == "push" { format!("[{}]", t) } else { t })); } }
                     return Ok(());
                 }
+                // `v.push(x);` on a `Vec::new()` local whose element type is not known yet, `x` a flattened struct local: a list of packed values
+                let mut xv = xv;
+                if xv.ty == RTy::VecList(Box::new(RTy::Infer)) && method == "push" && args.len() == 1 && xv.param.is_none() {
+                    if let Some(an) = path_ident(args[0]) {
+                        if let Some((RTy::Flat(sn), None)) = self.lookup(&an).map(|v| (v.ty.clone(), v.param)) {
+                            let lt = RTy::VecList(Box::new(self.packed_type(&sn).map_err(|m| self.err(e, &m))?));
+                            for v in self.env.iter_mut() { if v.lean == xv.lean && v.ty == xv.ty { v.ty = lt.clone(); } }
+                            xv.ty = lt;
+                        }
+                    }
+                }
                 // `result.push(x);` on a list of packed struct values (local / `&mut` parameter)
                 if let (true, "push") = (crate::is_packed_list(&xv.ty), method.as_str()) {
                     if !xv.mutable { return Err(self.err(e, "`push` on an immutable list")); }
@@ -2168,6 +2252,11 @@ impl<'w> FnTr<'w> {
 fn out_pre() -> Vec<String> { vec![] }
 
 /// a `match` with at least one `Some(..)` / `None` pattern
+/// do all arms have the form `Ok(..)` / `Err(..)`?
+pub fn is_result_match(m: &syn::ExprMatch) -> bool {
+    !m.arms.is_empty() && m.arms.iter().all(|a| matches!(&a.pat, Pat::TupleStruct(ts) if ts.qself.is_none() && (ts.path.is_ident("Ok") || ts.path.is_ident("Err"))))
+}
+
 pub fn is_option_match(m: &syn::ExprMatch) -> bool {
     fn has(p: &Pat) -> bool {
         match p {
